@@ -168,7 +168,7 @@ theorem resolveRest_follows : ∀ (ps : List Part) (v : Val) (fuel : Nat) (σ : 
             have ha := afterPart_plain T cfg g hnv n (typedElems cv) σ
             simp only [liftStep]
             rw [run_bind_ok (by rfl : (pure (some nv) : XM (Option Val)).run σ = .ok (some nv) σ)]
-            simp only []
+            simp only [Option.isSome_none, Bool.and_false, Bool.false_eq_true, if_false]
             rw [run_bind_ok ha]
             by_cases hk : (nv.kind == .invalid) = true
             · simp [hk, EStateM.run, pure, EStateM.pure, mkV]
@@ -189,7 +189,7 @@ theorem resolveRest_follows : ∀ (ps : List Part) (v : Val) (fuel : Nat) (σ : 
             have ha := afterPart_plain T cfg g hnv n (typedElems cv) σ
             simp only [liftStep]
             rw [run_bind_ok (by rfl : (pure (some nv) : XM (Option Val)).run σ = .ok (some nv) σ)]
-            simp only []
+            simp only [Option.isSome_none, Bool.and_false, Bool.false_eq_true, if_false]
             rw [run_bind_ok ha]
             by_cases hk : (nv.kind == .invalid) = true
             · simp [hk, EStateM.run, pure, EStateM.pure, mkV]
